@@ -180,6 +180,43 @@ def h_recv_boundary(ctx, extra):
   ctx.witness('done')
 
 
+def h_big_last(ctx, nsmall, total):
+  """controller: `nsmall` small messages and then, as the **last** message of the burst, one that is longer than a recv() - its head arrives in the
+  same read as the small ones, nothing follows it.  Fed whole (the connection reads it 2048 bytes at a time) and cut at one symbolic position."""
+  core = env.get_core()
+  of01 = ctx.pox('pox.openflow.of_01'); of = ctx.pox('pox.openflow.libopenflow_01')
+  of01.deferredSender = Dummy()
+  xid = ctx.int('xid', 0, 0xffffffff)
+  edge = ctx.bytes('edge', 6)
+  n = total - 8
+  body = list(edge[:3]) + [(k * 7 + 1) & 0xff for k in range(n - 6)] + list(edge[3:])
+  small = [hdr(0, 8, 5), hdr(2, 8 + 12, 6) + [0x11] * 12, hdr(3, 8 + 40, 7) + [0x22] * 40][:nsmall]
+  big = hdr(2, total, xid) + body
+  msgs = small + [big]
+  flat = [b for m in msgs for b in m]
+  stream = env.tobytes(ctx, flat)
+  sock = env.FakeSocket(eof=False); con = of01.Connection(sock)
+  delivered = []
+  con.handlers = [(lambda c, msg, t=t: delivered.append((t, msg.pack()))) for t in range(len(con.handlers))]
+  cut = int(ctx.int('cut', 0, 6))
+  where = [None, 1, len(flat) - total + 3, len(flat) - total + 8, len(flat) - total + 9, 2048, len(flat) - 1][cut]
+  if where is None: sock.feed(stream)
+  else:
+    sock.feed(stream[:where]); 
+  rounds = 0
+  while sock.chunks and rounds < 8:
+    ctx.check('read ok', con.read() is True); rounds += 1
+  if where is not None:
+    sock.feed(stream[where:])
+    while sock.chunks and rounds < 16:
+      ctx.check('read ok', con.read() is True); rounds += 1
+  ctx.check('every message delivered once the last byte has arrived', len(delivered) == len(msgs))
+  if len(delivered) == len(msgs):
+    for (t, raw), m in zip(delivered, msgs): ctx.check('delivered bytes identical', ctx.Eq(raw, env.tobytes(ctx, m)))
+  ctx.check('residual empty', len(con.buf) == 0)
+  ctx.witness('done')
+
+
 def h_large(ctx, side, total):
   """a maximal-size message (length field 0x7fff / 0x8000 / 0xffff) between two small ones, delivered in recv-sized pieces"""
   core = env.get_core()
@@ -394,6 +431,8 @@ def obligations(tier):
                desc='IOWorker + OFConnection.read: delivered sequence == sent sequence for every segmentation'),
     Obligation('O4_large', h_large, [dict(side=sd, total=t) for sd in ('controller', 'switch') for t in (0x7fff, 0x8000, 0xffff)] + [dict(side='switch', total=t) for t in (8192 - 16, 16384 - 16)], witnesses=('done',), max_decisions=50000,
                desc='messages with length field 0x7fff / 0x8000 / 0xffff are framed like any other, on both sides'),
+    Obligation('O3_big_last', h_big_last, [dict(nsmall=k, total=t) for k, t in ((1, 2100), (2, 3090), (3, 4200), (2, 2049))], witnesses=('done',), max_decisions=50000,
+               desc='a message longer than one recv() as the last message of a burst, behind small ones in the same read'),
     Obligation('O3_recv2048', h_recv_boundary, [dict(extra=e) for e in (0, 1, 2)], witnesses=('done',), max_decisions=50000,
                desc="controller recv(2048) boundary: a message longer than one recv() is reassembled"),
   ]
